@@ -16,10 +16,10 @@ TYPES = {
     "char": ("char", "char"),       # never a member: a key that must raise KeyError
 }
 BUFS = {"mvi": ("i", 4, 1), "mvl": ("i", 8, 1), "mvf": ("f", 4, 1), "mvd": ("f", 8, 1), "mvd2": ("f", 8, 2)}
-UALL = ["short", "int", "long", "uint", "ulong", "bint", "float", "double", "fc", "dc", "object", "list",
+UALL = ["short", "int", "long", "llong", "uint", "ulong", "bint", "float", "double", "fc", "dc", "object", "list",
         "mvi", "mvl", "mvf", "mvd", "mvd2"]
-UNUM = ["short", "int", "long", "uint", "ulong", "bint", "float", "double", "fc", "dc", "object"]
-UMULTI = ["int", "long", "uint", "bint", "double", "object", "mvd"]
+UNUM = ["short", "int", "long", "llong", "uint", "ulong", "bint", "float", "double", "fc", "dc", "object"]
+UNUMQ = [t for t in UNUM if t != "uint"]
 
 # argument kind -> Python expression evaluated in the driver (np, array, MyInt, MyFloat, mkcymv)
 ARGS = {
